@@ -701,13 +701,15 @@ fn sign_settings(c: &Case) -> String {
     .to_string()
 }
 
-const TRUST_MODES: &[&str] = &["anchor", "no-anchor", "verify-off"];
+const TRUST_MODES: &[&str] = &["anchor", "user-anchor", "no-anchor", "verify-off"];
 const READ_MODES: &[&str] = &["inline", "post-validate"];
 
 fn read_settings(trust: &str, read_mode: &str) -> String {
     let store_cfg = std::fs::read_to_string(signers::certs_dir().join("trust/store.cfg")).unwrap_or_default();
     let cawg_trust = match trust {
         "anchor" => json!({"verify_trust_list": true, "trust_anchors": signers::trust_anchors_pem(), "trust_config": store_cfg}),
+        // the CAWG signer's root configured as a *user* anchor of the CAWG trust settings only
+        "user-anchor" => json!({"verify_trust_list": true, "user_anchors": signers::trust_anchors_pem(), "trust_config": store_cfg}),
         "no-anchor" => json!({"verify_trust_list": true}),
         _ => json!({"verify_trust_list": false}),
     };
